@@ -104,6 +104,10 @@ CLAIMED = {
     "C29": ("S", "Every batch parameter definition in the bound (shape solver-chosen: scalars, lists, nested dicts, empty definitions) goes through regularize_parameters / parameters_configuration / "
                  "build_option_for_parameters and is compared with an independent itertools.product oracle; determinism w.r.t. the order of the definition is checked too.",
             "Discrete exploration (no numeric symbolic input); <= 3 (4) parameters, one nested level, values distinct after str().", "4/C29", S),
+    "C30": ("S", "generate_scenario with random.sample as an arbitrary (explored) k-subset; graph-colouring constraint generators and generate() on every graph with <= 4 vertices (edges solver-chosen, "
+                 "soft costs symbolic in [0,9], networkx random generators stubbed by the chosen graph); generate_ising on 2x2..3x3 grids with identical couplings in both forms: forms agree on every assignment, "
+                 "distributions host each computation once.",
+            "PARTIAL: the real networkx random-graph generators, CLI parsing and file output are not exercised; Ising couplings of the intentional form come from a representative set (they are formatted into strings).", "4/C30", S),
     "C31": ("S", "AgentDef.route/hosting_cost/attribute access and create_agents (list, range, tuple-of-lists indexes) executed with symbolic route costs, default route, hosting costs, "
                  "default hosting cost and capacity; presence of each specific entry is solver-chosen; the cost model and field-by-field equality with individually built agents are decided by z3.",
             "Names are drawn from small fixed sets of strings (no symbolic strings); Engine S is used instead of CrossHair (design change, see DESIGN).", "4/C31", S),
